@@ -122,6 +122,7 @@ func NewCtx(p *Prog, r *Report, tier string) *Ctx {
 			AnchorFail("anchor constant authboss.%s not found", need)
 		}
 	}
+	liveFuncs = p.AllFuncs
 	// static callers
 	c.callers = map[*ssa.Function][]ssa.CallInstruction{}
 	for _, fn := range p.AllFuncs {
